@@ -150,6 +150,23 @@ func (ab *AccessBarrier) doCleanup() {
 	}
 }
 
+// hasCleanupWork reports whether the oldest queued session is the next one to
+// be destructed.
+func (ab *AccessBarrier) hasCleanupWork() bool {
+	buf := ab.freeq.MakeBuf()
+	defer ab.freeq.FreeBuf(buf)
+
+	iter := ab.freeq.NewIterator(CompareBS, buf)
+	defer iter.Close()
+
+	iter.SeekFirst()
+	if !iter.Valid() {
+		return false
+	}
+	bs := (*BarrierSession)(iter.Get())
+	return bs.seqno == atomic.LoadUint64(&ab.freeSeqno)+1
+}
+
 // Acquire marks enter of an accessor in the skiplist
 func (ab *AccessBarrier) Acquire() *BarrierSession {
 	if ab.active {
@@ -187,10 +204,16 @@ func (ab *AccessBarrier) Release(bs *BarrierSession) {
 				}
 				verifYield(8) // verif: Release after queue insert
 				verifYield(9) // verif: Release before try-lock
-				if atomic.CompareAndSwapInt32(&ab.isDestructorRunning, 0, 1) {
+				for atomic.CompareAndSwapInt32(&ab.isDestructorRunning, 0, 1) {
 					ab.doCleanup()
 					verifYield(10) // verif: Release after cleanup, before unlock
 					atomic.CompareAndSwapInt32(&ab.isDestructorRunning, 1, 0)
+					// A session queued while this pass was finishing found the
+					// flag taken and left; look again so that it is not stranded
+					// until some future flush.
+					if !ab.hasCleanupWork() {
+						break
+					}
 				}
 			}
 		} else if liveCount < 0 || liveCount == barrierFlushOffset-1 {
